@@ -23,6 +23,8 @@ import WntrModel.Lemmas.AmlDeriv
 import WntrModel.Lemmas.AmlRat
 import WntrModel.Lemmas.AmlInv
 import WntrModel.Lemmas.AmlStruct
+import WntrModel.Lemmas.AmlReal
+import Mathlib.Analysis.Normed.Field.Lemmas
 
 namespace Wntr.Aml
 
@@ -356,5 +358,29 @@ example : (Model.run ratOps ({} : Model Rat)
   decide +kernel
 example : (Model.run ratOps ({} : Model Rat)
     [.register (exCon 0 0) 100 [10] [], .remove 0]).live (.var 0) = false := by decide +kernel
+
+
+/-! ## 4. `D` is the analytic derivative on the polynomial / rational fragment -/
+
+/-- **D_is_analytic_derivative_rational.** Over ℝ (any nontrivially normed field) with a lawful `Ops` record whose `pow`
+at natural constants is the monomial: for every expression built from variables, parameters, constants, `+ - * /`,
+negation and natural constant powers (`ratFrag`), at every point where no denominator vanishes, the function
+`x ↦ eval e [v := x]` has derivative `eval (D v e)`. Together with `reverseSd_is_derivative` the compiled Jacobian entry
+is the true partial derivative on this fragment. For `exp/log/sin/…/pow` with non-constant exponent, `abs`, `sign`,
+`if_else`, `D` is the textbook rule by construction (read off `Model/Rpn.lean`) but NOT connected to Mathlib's
+analytic derivative here. -/
+theorem D_is_analytic_derivative_rational {𝕜 : Type} [NontriviallyNormedField 𝕜] {O : Ops 𝕜} (L : LawfulOps O)
+    (hpow : ∀ (x : 𝕜) (n : ℕ), O.pow x (O.ofRat n) = x ^ n) (env : Env 𝕜) (v : Nat) (e : Expr)
+    (hf : ratFrag e = true) (hd : denomOk O env e) :
+    HasDerivAt (fun x => eval O (env.setVar v x) e) (eval O env (D v e)) (env.var v) :=
+  D_hasDerivAt L hpow env v e hf hd
+
+/-- non-vacuity: the hypotheses are satisfiable (ℚ with `ratOps`), on `x² / (y + 1)` at x = 2, y = 3 -/
+example : HasDerivAt
+    (fun x : ℚ => eval ratOps (exEnv.setVar 0 x) (.bin .div (.bin .pow (.var 0) (.const 2)) (.bin .add (.var 1) (.const 1))))
+    (eval ratOps exEnv (D 0 (.bin .div (.bin .pow (.var 0) (.const 2)) (.bin .add (.var 1) (.const 1)))))
+    (exEnv.var 0) :=
+  D_is_analytic_derivative_rational ratOps_lawful ratOps_pow exEnv 0 _ (by decide +kernel)
+    (by simp only [denomOk, true_and]; decide +kernel)
 
 end Wntr.Aml
